@@ -22,5 +22,7 @@ def check(ctx, rep):
                'tokens; that a DEDENT never arrives on an empty stack entry is a tokenizer invariant, not decided here')
     from ..rules import par as _par14
     _par14.par_14(ctx, rep)     # INDENT / DEDENT bookkeeping sees every token once (not the tokens recovery re-feeds)
+    from ..rules import tok as _tok13
+    _tok13.tok_13(ctx, rep)     # the indentation of a logical line is decided once
     rep.note('Not decided: absence of every implicit exception; the shape clauses (root has no parent, last child is '
              'the end marker).')
